@@ -258,6 +258,11 @@ func runSeq(c core.Case, prop string, reopen bool) core.Result {
 	r := rand.New(rand.NewSource(c.Seed))
 	d := &seqDriver{c: c, prop: prop, r: r, res: &res, m: newKVModel()}
 	d.dir = filepath.Join(core.WorkerScratch(), c.ID)
+	if c.Int("pathspell", 0) == 1 {
+		// a directory name with characters that mean something to globbing, formatting or the
+		// engine's own file names
+		d.dir += []string{" sp ace", "[1]", "*star", "?q", "@7", ".db", ".log", ".tmp", "%41%s", "-ünï", "{a,b}", "\\bs"}[int(c.Seed%12+12)%12]
+	}
 	os.RemoveAll(d.dir)
 	defer os.RemoveAll(d.dir)
 	drawCfg := gen.Config
@@ -595,7 +600,7 @@ func init() {
 	})
 	core.Register(&core.Check{
 		Prop: "C02", Level: "exploration",
-		Rule:      "case = a C01 program with Close/Open cycles: periodically, right after a commit that rotated the memtable (then possibly once more with an empty memtable), with a non-empty flush queue, directly after Open, and at the end; every parameter except L0TargetNum/LevelRatio is re-drawn per incarnation; every fourth case spells the directory differently at each Open (trailing slash, /./, relative path); after each reopen all keys are read against the model, then (half of the time) every key is overwritten and read again; non-trivial = >=2 reopens of which >=1 over a directory with tables on >=2 levels; distinct by case parameters",
+		Rule:      "case = a C01 program with Close/Open cycles: periodically, right after a commit that rotated the memtable (then possibly once more with an empty memtable), with a non-empty flush queue, directly after Open, and at the end; every parameter except L0TargetNum/LevelRatio is re-drawn per incarnation; every fourth case uses a directory name with unusual characters ([1], *, ?, @, %, spaces, .db/.log/.tmp endings) and spells the path differently at each Open (trailing slash, /./, relative path); after each reopen all keys are read against the model, then (half of the time) every key is overwritten and read again; non-trivial = >=2 reopens of which >=1 over a directory with tables on >=2 levels; distinct by case parameters",
 		Gen:       func(tier string, seed int64) []core.Case { return genSeq(tier, seed, "C02", 64, 500) },
 		Run:       func(c core.Case) core.Result { return runSeq(c, "C02", true) },
 		BatchSize: 4, GoMaxProcs: 2, Parallel: 8,
